@@ -128,7 +128,31 @@ func runP1Big(args []string) error {
 		}
 		perm := rng.Perm(nf)
 		vols := []int{}
-		if lastVolOnly {
+		if idx == 10 || idx == 12 {
+			// damage only beyond the first 16 KiB of a large file (the 16k hash still matches)
+			big := make([]byte, 20000+idx)
+			rng.Read(big)
+			prot[names[0]] = big
+			os.WriteFile(filepath.Join(dir, names[0]), big, 0644)
+			if a, err = buildArch1(dir, names, prot, nv, "arch"); err != nil {
+				return err
+			}
+			a.Others["readme.txt"] = []byte("bystander")
+			for _, nme := range names {
+				disk[nme] = prot[nme]
+			}
+			d := append([]byte{}, big...)
+			if idx == 10 {
+				d[17000] ^= 0x01
+			} else {
+				d = d[:16384]
+			}
+			disk[names[0]] = d
+			dmg = []string{"damage beyond 16 KiB in " + names[0]}
+			for v := 1; v <= nv; v++ {
+				vols = append(vols, v)
+			}
+		} else if lastVolOnly {
 			// one file is lost and only the highest-numbered volume survives
 			disk[names[nf/2]] = nil
 			dmg = []string{"delete " + names[nf/2], fmt.Sprintf("keep only volume %d", nv)}
